@@ -693,6 +693,11 @@ def run_case(case, ctx):
         f"correlation of about {d['abs_correlation_seen_by_cells']:.3f}), bitwise-equal draws in >= {d['equal_draw_runs']} runs; "
         f"pooled lag-1 tests along an axis of length T reject |corr| > {d['abs_correlation']:.4f}/sqrt(T/2) or less"
     )
+    ctx.note(
+        "key hooks (no repo edit): pjax.FlatSamplerCache.get_flat_sampler (sub-key per flat sampler), pjax.sample_binder "
+        "(key per keyed-sampler draw, per lane), pjax.jrand proxy (every split / fold_in inside pjax); all via jax.debug.callback "
+        "under jit, verified inside lax.scan, lax.cond, modular_vmap lanes and the combinators by the expected event counts"
+    )
     rng = np.random.default_rng(case["rng"])
     inner_root = jax.random.key(int(rng.integers(0, 2**31)))
 
